@@ -52,9 +52,8 @@ func main() {
 	for _, f := range facs {
 		stats[f.Name] = &pairStats{Labels: map[string]int{}, Shapes: map[string]bool{}}
 		n := perPair
-		if f.Name == "raftkvs" && r.Quick() {
-			n = 1
-		}
+		// (raftkvs: consecutive job seeds alternate between harness cells and the production LocalShared/IncMap
+		// binding of the plain variables, so two jobs cover both)
 		if strings.HasPrefix(f.Name, "gotests/") {
 			continue // handled by the step-wise validator below
 		}
@@ -63,6 +62,15 @@ func main() {
 		}
 	}
 	evals := 0
+	// the compiler test pairs are validated concurrently with the system pairs (both are dominated by TLC start-up)
+	gstats := map[string]*pairStats{}
+	for n, st := range stats {
+		if strings.HasPrefix(n, "gotests/") {
+			gstats[n] = st
+		}
+	}
+	gdone := make(chan int, 1)
+	go func() { gdone <- runGotests(r, scratch, facs, gstats, &samples, perPair) }()
 	common.Parallel(len(jobs), r.Pick(6, 12), func(k int) {
 		j := jobs[k]
 		seed := r.Seed*9_000_011 + int64(k)
@@ -168,8 +176,35 @@ func main() {
 		}
 	})
 
-	gotestsEvals := runGotests(r, scratch, facs, stats, &samples, perPair)
-	evals += gotestsEvals
+	// "a step the spec disables never commits" also means it leaves no trace: raftkvs with the production binding of
+	// its plain per-server variables (real LocalShared managers behind IncMaps, as bootstrap/server.go wires them);
+	// after every ABORTED attempt the real resources must equal the last committed spec state. No TLC needed.
+	abortRuns := r.Pick(8, 80)
+	abortAttempts := 0
+	common.Parallel(abortRuns, 8, func(i int) {
+		seed := r.Seed*4_000_037 + int64(i)
+		rng := r.Rand(fmt.Sprintf("c02-abort-%d", i))
+		o := adapters.RaftOpts{NS: 2 + rng.Intn(2), NC: 1 + rng.Intn(2), BufferSize: 2 + rng.Intn(2), FIFO: i%2 == 0, Exact: false, Keys: 1,
+			BiasFD: 5, BiasLeaderTimeout: 4, BiasClientTimeout: 10, CrashAfter: 1 << 30, RealShared: true}
+		rs := adapters.Raftkvs(seed, o)
+		rs.Sim.Monitor = nil
+		out := rs.Run(700, false)
+		mu.Lock()
+		defer mu.Unlock()
+		evals++
+		abortAttempts += out.Result.Aborts
+		for _, v := range out.Violations {
+			r.Report(v.Key, v.Desc, map[string]any{"pair": "raftkvs", "opts": o, "seed": seed, "steps": out.StepLog})
+		}
+		if out.Result.Err != nil && !out.Result.MonitorErr {
+			r.Report("C02:raftkvs:go-error-in-real-shared-run", out.Result.Err.Error(), map[string]any{"pair": "raftkvs", "opts": o, "seed": seed, "steps": out.StepLog})
+		}
+	})
+	stats["raftkvs"].Runs += abortRuns
+	evals += <-gdone
+	for n, st := range gstats {
+		stats[n] = st
+	}
 
 	// evidence
 	distinct := 0
@@ -195,7 +230,7 @@ func main() {
 		Rule:               "one evaluation = one recorded run of a spec/Go pair under a seeded schedule, validated step by step by TLC against the shipped translation; distinct_nontrivial = number of distinct (pair, archetype label) whose committed steps TLC accepted as steps of Next",
 		Samples:            samples.S,
 		Floor:              10,
-		Extra:              map[string]any{"pairs": per, "pairs_without_adapter": without},
+		Extra:              map[string]any{"pairs": per, "pairs_without_adapter": without, "raftkvs_real_shared_runs": abortRuns, "raftkvs_aborted_attempts_checked_for_no_effect": abortAttempts},
 	}, []string{
 		"harness resources implement each spec's mapping macros; a wrong adapter shows up as a TLC rejection (harness bug), so acceptance also validates the adapters",
 		"TLC is used as an evaluator of (s, s') in Next over recorded states only",
